@@ -35,7 +35,8 @@ theorem glyph_decodes_equal (flags : Nat) (gmap : Nat → Option Nat) (d out : B
     (hb : ∀ b ∈ d, b < 256) (h : subsetGlyphBytes flags gmap d = .bytes out) (hne : out ≠ []) :
     ∃ g g', decodeGlyph d = some g ∧ decodeGlyph out = some g' ∧ renameDecoded flags gmap g = some g' := by
   by_cases hs : u16At d 0 < 32768
-  · obtain ⟨v, v', h1, h2, e1, e2, e3, e4, e5, e6, _, e8, _, hh⟩ := simple_decodes_equal flags gmap d out hb hs h hne
+  · obtain ⟨v, v', h1, h2, e1, e2, e3, e4, e5, e6, _, e8, _, hh⟩ := simple_decodes_equal flags gmap d out [] hb hs h hne
+    rw [List.append_nil] at h2
     have hs' : u16At out 0 < 32768 := by rw [u16At_head out d hh]; exact hs
     refine ⟨.simple v.nContours v.xMin v.yMin v.xMax v.yMax v.endPts v.points,
       .simple v'.nContours v'.xMin v'.yMin v'.xMax v'.yMax v'.endPts v'.points, ?_, ?_, ?_⟩
